@@ -74,6 +74,12 @@ pub fn chars8_valid() -> impl Strategy<Value = [u8; 8]> {
     proptest::array::uniform8(ch)
 }
 
+/// callsigns from a pool of two: the same string then returns with another category / type code / capability
+pub fn chars8_pool() -> impl Strategy<Value = [u8; 8]> {
+    // "EIN12345" and "KLM45ABC" in the 6-bit alphabet (letters 1..26, digits 48..57)
+    proptest::sample::select(vec![[5u8, 9, 14, 49, 50, 51, 52, 53], [11u8, 12, 13, 52, 53, 1, 2, 3]])
+}
+
 pub fn vel_any() -> impl Strategy<Value = Vel> {
     let mag = || prop_oneof![1 => Just(0u32), 1 => Just(1u32), 1 => Just(2u32), 1 => Just(1022u32), 1 => Just(1023u32), 6 => 0u32..1024];
     let vr = prop_oneof![1 => Just(0u32), 1 => Just(1u32), 1 => Just(2u32), 1 => Just(511u32), 5 => 0u32..512];
@@ -234,9 +240,11 @@ pub fn junk_with_frame_after_offset() -> BoxedStrategy<Vec<u8>> {
         .boxed()
 }
 
-/// very long junk line (64 KiB .. 256 KiB) of non-hex text with a sprinkling of digits, digit count forced to be unaccepted
+/// very long junk line (64 KiB .. 256 KiB, or exactly around a power of two from 1 KiB up) of non-hex text with a sprinkling of digits, digit count forced to be unaccepted
 pub fn long_junk_line() -> BoxedStrategy<Vec<u8>> {
-    (65_536usize..262_144, any::<u8>(), any::<bool>())
+    // half of the lengths sit on a power of two (1 KiB .. 256 KiB) minus 2 .. plus 1, where fixed-size read buffers end
+    let len = prop_oneof![1 => 65_536usize..262_144, 1 => (10u32..=18, 0usize..4).prop_map(|(k, o)| (1usize << k) + o - 2)];
+    (len, any::<u8>(), any::<bool>())
         .prop_map(|(n, seed, hexish)| {
             let mut v = Vec::with_capacity(n + 8);
             let mut x = seed as u32 | 1;
@@ -255,7 +263,15 @@ pub fn long_junk_line() -> BoxedStrategy<Vec<u8>> {
                 if b.is_ascii_hexdigit() { digits += 1; }
                 v.push(b);
             }
-            if matches!(digits, 14 | 28 | 26 | 40) { v.push(b'0'); }
+            v.truncate(n);
+            let _ = digits;
+            let digits = v.iter().filter(|b| b.is_ascii_hexdigit()).count();
+            if matches!(digits, 14 | 28 | 26 | 40) {
+                // keep the length: turn one digit into a letter that is not one
+                if let Some(b) = v.iter_mut().rev().find(|b| b.is_ascii_hexdigit()) {
+                    *b = b'g';
+                }
+            }
             v
         })
         .boxed()
